@@ -5,8 +5,31 @@
   `src/main.rs`), `Jence.RepTable` (`src/repetition_table.rs`).
 -/
 import Jence.Model.Fen
+import Jence.Props.C01
 namespace Jence.Props.C05
 open Jence
+
+theorem squareFromString_le (s : String) (i : Nat) (h : squareFromString s = some i) : i ≤ 64 := by
+  unfold squareFromString at h
+  split at h
+  · simp only at h
+    repeat' split at h
+    all_goals (first | (simp at h; omega) | simp at h)
+  · simp at h
+
+theorem parseEp_le (s : String) (i : Nat) (h : parseEp s = some i) : i ≤ 64 := by
+  unfold parseEp at h
+  split at h
+  · exact squareFromString_le s i h
+  · simp only [Option.some.injEq] at h; rw [← h]; decide
+
+/-- a parsed FEN carries a square number or "none" in its en-passant field -/
+theorem parseFen_ep (s : String) (g : Game) (h : parseFen s = .ok g) : g.ep ≤ 64 := by
+  unfold parseFen at h
+  simp only at h
+  repeat' split at h
+  all_goals (try (simp at h))
+  all_goals (subst h; exact parseEp_le _ _ ‹parseEp _ = some _›)
 
 /-- **T5.3a** A string is accepted only if it is the UCI string of a move of the engine's legal list, and that move is
     what `parse_move` returns. -/
@@ -66,8 +89,7 @@ def playAll : Game → List String → Option (List Game)
 
 /-- **T5.1a** Replaying a move list (within the capacity of the history array) ends in the last position of `playAll`
     and appends exactly the keys of the positions passed through, in order. -/
-theorem replay_history (hmk : ∀ g m, m ∈ legalValues g → (makeCore g m).isSome)
-    (mvs : List String) (g : Game) (rep : RepTable) (g' : Game) (rep' : RepTable)
+theorem replay_history (mvs : List String) (g : Game) (hep : g.ep ≤ 64) (rep : RepTable) (g' : Game) (rep' : RepTable)
     (h : replayMoves mvs g rep = .ok (g', rep')) (hov : rep.overflow = false) :
     ∃ gs, playAll g mvs = some gs ∧ gs.length = mvs.length ∧ g' = (g :: gs).getLast (by simp) ∧
       rep'.pre = rep.pre ++ gs.map (·.key) ∧ rep'.index = rep.index + mvs.length := by
@@ -88,7 +110,7 @@ theorem replay_history (hmk : ∀ g m, m ∈ legalValues g → (makeCore g m).is
         unfold makeSearchMove at hm
         cases hc : makeCore g m with
         | none =>
-          have := hmk g m (parseMove_sound g mv m hp).1
+          have := C01.legal_moves_can_be_made g hep m (parseMove_sound g mv m hp).1
           simp [hc] at this
         | some g2 => simp [hc] at hm
       | some pr =>
@@ -108,7 +130,11 @@ theorem replay_history (hmk : ∀ g m, m ∈ legalValues g → (makeCore g m).is
           obtain ⟨hpre, hidx, hsz, hovf⟩ := pre_insert rep g3.key hlt
           have hov2 : (rep.insert g3.key).overflow = false := by rw [hovf, hov]
           simp only [hov2, Bool.false_eq_true, ↓reduceIte] at h
-          obtain ⟨gs, hgs, hlen, hlast, hp', hi'⟩ := ih g3 (rep.insert g3.key) h hov2
+          have hep3 : g3.ep ≤ 64 := by
+            have hm' := (parseMove_sound g mv m hp).1
+            have hgen : m ∈ generateMoves g true := (List.mem_filter.mp hm').1
+            exact C01.makeCore_ep g g3 m (C01.generated_shape g true hep m hgen) hc
+          obtain ⟨gs, hgs, hlen, hlast, hp', hi'⟩ := ih g3 hep3 (rep.insert g3.key) h hov2
           refine ⟨g3 :: gs, by simp [playAll, hp, hc, hgs], by simp [hlen], ?_, ?_, ?_⟩
           · rw [hlast]; simp [List.getLast_cons]
           · rw [hp', hpre]; simp
@@ -116,10 +142,10 @@ theorem replay_history (hmk : ∀ g m, m ∈ legalValues g → (makeCore g m).is
 
 /-- **T5.1** `position [startpos|fen F] [moves …]`: when the command succeeds, the engine is left in the last position of
     the game that starts at the base position, and the recorded history is the key of *every* position of that game,
-    from the base position through the final one (in order, nothing else) — commit `0eb7154` added the base position.
+    from the base position through the final one (in order, nothing else) — commit `0eb7154` added the base position. No hypothesis: that every move of the legal list
+    can be made is `Props/C01.legal_moves_can_be_made` (T1.2).
     A move list that would overrun the history array does not succeed (recorded finding D7). -/
-theorem position_history (hmk : ∀ g m, m ∈ legalValues g → (makeCore g m).isSome)
-    (args : String) (g : Game) (rep : RepTable) (h : parsePosition args RepTable.new = .ok (g, rep)) :
+theorem position_history (args : String) (g : Game) (rep : RepTable) (h : parsePosition args RepTable.new = .ok (g, rep)) :
     ∃ base mvs gs, playAll base mvs = some gs ∧ gs.length = mvs.length ∧ g = (base :: gs).getLast (by simp) ∧
       rep.pre = (base :: gs).map (·.key) ∧ rep.index = mvs.length + 1 := by
   unfold parsePosition at h
@@ -128,6 +154,22 @@ theorem position_history (hmk : ∀ g m, m ∈ legalValues g → (makeCore g m).
   · simp at h
   · simp at h
   · rename_i base rest hb
+    have hbase : base.ep ≤ 64 := by
+      revert hb
+      split
+      · split
+        · rename_i g0 hg0
+          intro hb; simp only [Res.ok.injEq, Prod.mk.injEq] at hb; rw [← hb.1]; exact parseFen_ep _ _ hg0
+        · intro hb; simp at hb
+      · split
+        · split
+          · intro hb; simp at hb
+          · split
+            · rename_i g0 hg0
+              intro hb; simp only [Res.ok.injEq, Prod.mk.injEq] at hb; rw [← hb.1]; exact parseFen_ep _ _ hg0
+            · intro hb; simp at hb
+            · intro hb; simp at hb
+        · intro hb; simp at hb
     have hnew : (RepTable.new.insert base.key).overflow = false ∧ (RepTable.new.insert base.key).pre = [base.key] ∧
         (RepTable.new.insert base.key).index = 1 := by
       have hlt : RepTable.new.index < RepTable.new.table.size := by simp [RepTable.new]; decide
@@ -137,7 +179,7 @@ theorem position_history (hmk : ∀ g m, m ∈ legalValues g → (makeCore g m).
     simp only [ho, Bool.false_eq_true, ↓reduceIte] at h
     split at h
     · rename_i mvs _
-      obtain ⟨gs, h1, h2, h3, h4, h5⟩ := replay_history hmk mvs base _ g rep h ho
+      obtain ⟨gs, h1, h2, h3, h4, h5⟩ := replay_history mvs base hbase _ g rep h ho
       exact ⟨base, mvs, gs, h1, h2, h3, by rw [h4, hp]; rfl, by rw [h5, hi]; omega⟩
     · simp only [Res.ok.injEq, Prod.mk.injEq] at h
       obtain ⟨rfl, rfl⟩ := h
